@@ -10,6 +10,8 @@ from concurrent.futures import ThreadPoolExecutor
 
 ENV = dict(os.environ, GOFLAGS='-mod=mod', GOPROXY='off', GOSUMDB='off', GOTOOLCHAIN='local')
 REPO = '/repo'
+BASE = None   # frozen copy of /repo taken at start (edits to /repo during the sweep must not leak into it)
+APDVC = '/verif/bin/apdvc'
 
 OPS = [
     (r'(?<![<>=!&|+\-*/])<=(?!=)', '<'), (r'(?<![<>=!&|\-])<(?![<=\-])', '<='),
@@ -47,7 +49,7 @@ def enclosing(lines, i):
 def gen(files, names):
     muts = []
     for f in files:
-        lines = open(os.path.join(REPO, f)).read().split('\n')
+        lines = open(os.path.join(BASE or REPO, f)).read().split('\n')
         for i, l in enumerate(lines):
             s = l.strip()
             if not s or s.startswith('//') or l.startswith('func ') or l.startswith('import') or l.startswith('\t"'):
@@ -72,7 +74,7 @@ def gen(files, names):
 def run(m, idx):
     t = tempfile.mkdtemp(prefix='mut%04d_' % idx, dir='/tmp')
     try:
-        subprocess.run(['cp', '-r', REPO + '/.', t], check=True)
+        subprocess.run(['cp', '-r', BASE + '/.', t], check=True)
         p = os.path.join(t, m['file'])
         lines = open(p).read().split('\n')
         lines[m['line'] - 1] = m['_new_line']
@@ -81,7 +83,7 @@ def run(m, idx):
         if b.returncode != 0:
             return dict(m, status='nobuild')
         e = dict(ENV, APDVC_REPO=t)
-        v = subprocess.run(['/verif/bin/apdvc', 'vc', '-t', '12', m['fn']], env=e, capture_output=True, text=True, timeout=900)
+        v = subprocess.run([APDVC, 'vc', '-t', '12', m['fn']], env=e, capture_output=True, text=True, timeout=900)
         out = v.stdout + v.stderr
         last = [l for l in out.strip().split('\n') if 'obligations' in l][-1:] or ['']
         if 'PROBLEM' in out or 'load:' in out:
@@ -110,6 +112,11 @@ def main():
     ap.add_argument('--out', default='/tmp/mutation_results.jsonl')
     ap.add_argument('--skip', default='', help='comma-separated contract names to leave out (functions whose values no property specifies)')
     a = ap.parse_args()
+    global BASE, APDVC
+    BASE = tempfile.mkdtemp(prefix='mutbase_', dir='/tmp')
+    subprocess.run(['cp', '-r', REPO + '/.', BASE], check=True)
+    shutil.copy('/verif/bin/apdvc', BASE + '/.apdvc')
+    APDVC = BASE + '/.apdvc'
     names = contract_names()
     muts = [m for m in gen(a.files.split(','), names) if m['fn'] not in set(a.skip.split(','))]
     random.Random(a.seed).shuffle(muts)
@@ -120,5 +127,6 @@ def main():
             r.pop('_new_line', None)
             fo.write(json.dumps(r) + '\n'); fo.flush()
             print(r['status'], r.get('tests', ''), r['file'], r['line'], r['fn'], '|', r['old'][:60], '=>', r['new'][:60], '|', r.get('by', ''), flush=True)
+    shutil.rmtree(BASE, ignore_errors=True)
 
 main()
